@@ -17,7 +17,8 @@ import (
 // C14 — votes aggregate only on identical events.
 type C14 struct {
 	BaseOracle
-	seen map[string][]claimSeen // chain/nonce -> successful claims
+	seen    map[string][]claimSeen // chain/nonce -> successful claims
+	swept   map[string]uint64      // chain -> highest true event nonce whose mutations were enumerated
 }
 
 type claimSeen struct {
@@ -28,7 +29,41 @@ type claimSeen struct {
 }
 
 func (*C14) Property() string { return "C14" }
-func (o *C14) Init(w *World)  { o.seen = map[string][]claimSeen{} }
+func (o *C14) Init(w *World) {
+	o.seen = map[string][]claimSeen{}
+	o.swept = map[string]uint64{}
+}
+
+// sweep: for every event the external chains have emitted, EVERY listed one-field mutation (and boundary
+// shift) is built and its claim identifier compared with the true event's — the enumeration of the property's
+// field list, on the real Hash() code, with the run's real events as the base values.
+func (o *C14) sweep(w *World) {
+	for _, ch := range Chains {
+		top := w.lastExtNonce(ch)
+		for n := o.swept[ch] + 1; n <= top; n++ {
+			truth := w.TrueClaim(ch, n)
+			o.swept[ch] = n
+			if truth == nil {
+				continue
+			}
+			tn := eventTypeName(truth)
+			th := truth.Hash()
+			for _, f := range MutationFields[tn] {
+				m := w.Mutate(ch, truth, f)
+				if m == nil || m.Validate(mhub2types.ChainID(ch)) != nil {
+					continue
+				}
+				w.St.Check("C14:separate-records")
+				w.St.Probe("enumerated:" + tn + ":" + f)
+				w.St.Probe("nontrivial")
+				if bytes.Equal(th, m.Hash()) && eventTypeName(m) == tn || (eventTypeName(m) != tn && bytes.Equal(th, m.Hash())) {
+					w.Fail("C14", "separate-records", tn+":"+f, fmt.Sprintf("%s nonce %d: the true %s and an admissible copy differing in '%s' get the same claim identifier %x (true: %s | copy: %s)", ch, n, tn, f, th, truth.String(), m.String()))
+					return
+				}
+			}
+		}
+	}
+}
 
 func claimIDs(r *TxResult) []string {
 	var out []string
@@ -89,6 +124,10 @@ func (o *C14) AfterTx(w *World, r *TxResult) {
 }
 
 func (o *C14) AfterEnd(w *World) {
+	o.sweep(w)
+	if w.Stopped() {
+		return
+	}
 	t := w.T()
 	// the obligation assumes the Byzantine validators stay below the power that can apply an event alone
 	st := w.ReadState()
